@@ -4,12 +4,14 @@ import (
 	"fmt"
 	"sort"
 	"strings"
+	"sync"
 	"syscall"
 
 	"github.com/avfs/avfs"
 	"github.com/avfs/avfs/vfs/memfs"
 
 	"verif/internal/fsx"
+	"verif/internal/hook"
 	"verif/internal/rt"
 	"verif/internal/sched"
 )
@@ -393,6 +395,94 @@ func c06Temps(c *rt.Ctx, fsType string, st *c06Stats, r interface{ IntN(int) int
 	}
 }
 
+// c06TempsMany: the names CreateTemp hands out come from a 32-bit random suffix, so two calls draw the same name once a
+// directory holds some 10^5 temp files; the call must then notice that the name is taken and draw another. Eight
+// free-running goroutines (own Sub views of one MemFS, or sharing one OrefaFS) create total files in one directory,
+// each writes its own tag into its file; afterwards no name was handed out twice, the directory has one entry per
+// call and every file still holds the tag of the call that got its name (exactly-once over names).
+func c06TempsMany(c *rt.Ctx, fsType string, total int) {
+	hook.Set(nil)
+	defer sched.Install()
+	const workers = 8
+	in := c06NewInstance(fsType, []fsx.Op{{K: "Mkdir", P: "/w", Perm: 0o777}}, workers)
+	type made struct {
+		name string
+		tag  string
+	}
+	out := make([][]made, workers)
+	errs := make([]string, workers)
+	var wg sync.WaitGroup
+	for w := 0; w < workers; w++ {
+		wg.Add(1)
+		go func(w int) {
+			defer wg.Done()
+			defer func() {
+				if p := recover(); p != nil {
+					errs[w] = fmt.Sprint("panic: ", p)
+				}
+			}()
+			v := in.views[w]
+			for i := 0; i < total/workers; i++ {
+				f, err := v.CreateTemp("/w", "t*")
+				if err != nil {
+					errs[w] = err.Error()
+					return
+				}
+				tag := fmt.Sprintf("w%d-%d", w, i)
+				_, _ = f.Write([]byte(tag))
+				out[w] = append(out[w], made{f.Name(), tag})
+				_ = f.Close()
+			}
+		}(w)
+	}
+	wg.Wait()
+	for w, e := range errs {
+		if e != "" {
+			c.Disagree(fsType+"|temps-many|call-failed", fmt.Sprintf("%s: CreateTemp(\"/w\",\"t*\") of worker %d failed: %s", fsType, w, e), nil)
+			return
+		}
+	}
+	owner := map[string]string{}
+	dups := 0
+	first := ""
+	n := 0
+	for w := range out {
+		for _, m := range out[w] {
+			n++
+			if prev, dup := owner[m.name]; dup {
+				dups++
+				if first == "" {
+					first = fmt.Sprintf("%s handed to %s and to %s", m.name, prev, m.tag)
+				}
+			}
+			owner[m.name] = m.tag
+		}
+	}
+	c.Rep.Count("temp_names_handed_out_free_running", int64(n))
+	c.Rep.Case(fmt.Sprintf("%s|temps-many|%d-names", fsType, n), true)
+	if dups > 0 {
+		c.Disagree(fsType+"|temps-many|same-name-twice", fmt.Sprintf("%s: of %d concurrent CreateTemp calls in one directory, %d were handed a name already handed out (%s)", fsType, n, dups, first), map[string]any{"fs": fsType, "calls": n, "workers": workers})
+		return
+	}
+	es, err := in.root.ReadDir("/w")
+	if err != nil || len(es) != n {
+		c.Disagree(fsType+"|temps-many|count-mismatch", fmt.Sprintf("%s: %d temp names were handed out but /w lists %d entries (%v)", fsType, n, len(es), err), nil)
+		return
+	}
+	bad := 0
+	for name, tag := range owner {
+		if b, err := in.root.ReadFile(name); err != nil || string(b) != tag {
+			bad++
+			if first == "" {
+				first = fmt.Sprintf("%s holds %q, its creator wrote %q (%v)", name, b, tag, err)
+			}
+		}
+	}
+	if bad > 0 {
+		c.Disagree(fsType+"|temps-many|content-lost", fmt.Sprintf("%s: %d of %d temp files do not hold what their creator wrote (%s)", fsType, bad, n, first), nil)
+	}
+}
+
 func init() {
 	register(&Check{
 		Prop:   "C06",
@@ -474,6 +564,9 @@ func init() {
 				}
 				if c.Shard == 0 {
 					c06Temps(c, fsType, st, r, c.Pick(200, 3000))
+				}
+				if fsType == "MemFS" && c.Shard == 1%c.NShards || fsType == "OrefaFS" && c.Shard == 2%c.NShards {
+					c06TempsMany(c, fsType, c.Pick(320000, 1200000))
 				}
 			}
 			c.Rep.Count("distinct_interleavings", int64(len(st.inter)))
